@@ -259,26 +259,40 @@ func checkBuffering(p *Program, r *Report) {
 			r.Undecide("C18.E3", key, "-", "Load not found")
 			continue
 		}
-		n, good, why := 0, true, ""
-		for _, b := range L.Blocks {
-			for _, in := range b.Instrs {
-				c, ok := in.(*ssa.Call)
-				if !ok {
+		// the loader region is interpreted as in C07; on every path that
+		// reaches the parser, count the buffering layers between source and parser
+		n, good, why := -1, true, ""
+		_, outs, _, _ := runLoader(p, L)
+		for _, o := range outs {
+			if o.Kind != "return" {
+				continue
+			}
+			layers, parsed := 0, false
+			for _, ev := range o.St.events {
+				if ev.Kind != "call" {
 					continue
 				}
-				f := staticCallee(c)
 				switch {
-				case fnIs(f, "bufio", "NewReader"):
-					n++
-				case fnIs(f, "bufio", "NewReaderSize"):
-					n++
-					if sz, isC := constInt(c.Call.Args[1]); !isC || sz > 65536 {
-						good, why = false, fmt.Sprintf("bufio.NewReaderSize with size %v: read-ahead exceeds the 64 KiB allowance", c.Call.Args[1])
+				case ev.Fn == "bufio.NewReader":
+					layers++
+				case ev.Fn == "bufio.NewReaderSize":
+					layers++
+					sz, _ := ev.Args[1].(*Form)
+					if c, isC := sz.ConstInt(); sz == nil || !isC || c > 65536 {
+						good, why = false, fmt.Sprintf("bufio.NewReaderSize with size %s: read-ahead exceeds the 64 KiB allowance", valKey(ev.Args[1]))
 					}
-				case fnIs(f, "io", "ReadAll"), fnIs(f, "io/ioutil", "ReadAll"), fnIs(f, "io", "Copy"):
-					good, why = false, "the loader slurps the stream with "+f.Name()
+				case ev.Fn == "io.ReadAll", ev.Fn == "io/ioutil.ReadAll", ev.Fn == "io.Copy", ev.Fn == "(*bytes.Buffer).ReadFrom":
+					good, why = false, "the loader slurps the stream with "+ev.Fn
+				case ev.Callee != nil && isPrismFn(ev.Callee):
+					parsed = true
 				}
 			}
+			if parsed && (n < 0 || layers != 1) {
+				n = layers
+			}
+		}
+		if n < 0 {
+			n = 0
 		}
 		r.Check(good && n == 1, "C18.E3", key, p.FnPos(L), "exactly one buffering layer: bufio.NewReader (4096 bytes) or a constant ≤ 65536", fmt.Sprintf("%d buffering layers; %s", n, why))
 	}
